@@ -37,9 +37,22 @@ func (s *Syncer[H]) Head(ctx context.Context, _ ...header.HeadOption[H]) (H, err
 
 	// attempt to set the (potentially) new network head
 	// it doesn't matter for the caller setting succeeds or not
-	_ = s.incomingNetworkHead(ctx, netHead)
+	setErr := s.incomingNetworkHead(ctx, netHead)
 	// so return whatever is the current highest head
-	return s.localHead(ctx)
+	head, err := s.localHead(ctx)
+	if err != nil {
+		return head, err
+	}
+	// unless it is expired: the reinitialization did not succeed then
+	// and there is no valid head to report
+	if expired, expiredFor := isExpired(head, s.Params.trustingPeriod); expired {
+		err = fmt.Errorf("subjective head(%d) expired for %s", head.Height(), expiredFor.String())
+		if setErr != nil {
+			err = fmt.Errorf("%w: reinitialization failed: %w", err, setErr)
+		}
+		return head, err
+	}
+	return head, nil
 }
 
 // networkHead returns subjective head lazily ensuring its recency.
